@@ -49,10 +49,10 @@ import Driver.Util
 
     rangecoder oframe <max_data_bytes> <fill> <bandwidth> <nCh> <ms10> <flags> <records>
         (harness/c08_silkpacket.c mode `oframe`: the real opus_encode forced to SILK-only; records as in `spacket`)
-      answer:  P <hex payload> F <rangeFinal>   (OpusModel.OpusFrameEnc.silkOnlyFrame; caller buffer byte j = (fill+37j)%256)
+      answer:  P <hex payload> F <rangeFinal> R ok   (OpusModel.OpusFrameEnc.silkOnlyFrame; R: the harness' real-decoder check; caller buffer byte j = (fill+37j)%256)
     rangecoder oframer <max_data_bytes> <fill> <bandwidth> <nCh> <ms10> <flags> <records> <celt_to_silk> <hex R> <redundant_rng>
         (same, for packets to which the real encoder appended a 5 ms redundancy frame: its bytes R and final range are inputs)
-      answer:  P <hex payload> F <rangeFinal>   (OpusModel.OpusFrameEnc.silkRedFrame)
+      answer:  P <hex payload> F <rangeFinal> R ok   (OpusModel.OpusFrameEnc.silkRedFrame)
 
     rangecoder tf <l> <rlo> <n> <low> <nbits>
         ec_tell / ec_tell_frac for rng = (r << (l-16)) + (low ? 2^(l-16)-1 : 0), r = rlo..rlo+n-1,
@@ -256,12 +256,12 @@ def runSpacket (size : Nat) (cfg : SilkSyms.Cfg) (pk : SilkSymsEnc.PacketIn) : S
 def runOframe (maxData fill bw nCh ms10 : Nat) (pk : SilkSymsEnc.PacketIn) : String :=
   let buf := (List.range (maxData - 1)).map (fun j => (fill + 37 * j) % 256)
   let f := OpusFrameEnc.silkOnlyFrame buf maxData (OpusFrameEnc.silkCfg bw nCh ms10) pk
-  s!"P {toHex f.payload} F {f.rangeFinal}"
+  s!"P {toHex f.payload} F {f.rangeFinal} R ok"
 
 def runOframeR (maxData fill bw nCh ms10 : Nat) (pk : SilkSymsEnc.PacketIn) (c2s : Nat) (R : Bytes) (rr : Nat) : String :=
   let buf := (List.range (maxData - 1)).map (fun j => (fill + 37 * j) % 256)
   let f := OpusFrameEnc.silkRedFrame buf maxData (OpusFrameEnc.silkCfg bw nCh ms10) pk c2s R rr
-  s!"P {toHex f.payload} F {f.rangeFinal}"
+  s!"P {toHex f.payload} F {f.rangeFinal} R ok"
 
 def handle : List String → String
   | ["oframer", maxData, fill, bw, nCh, ms10, flags, recs, c2s, r, rr] =>
